@@ -43,6 +43,18 @@ claimed = {
    text="Decides from source: Read inspects position and size only through comparisons, so the three orderings are enumerated and the branch structure followed for each: every ordering reaches the decoder (only pos<size) or returns a non-nil error/EOF - no state returns (0,nil) forever; between any two increments of the position an edge establishing pos<size is taken (output never exceeds the declared size); Close's nil return lies past guards on sticky errors, CRC (under the crc16 flag only) and size; a failed byte read is recorded before returning, the bit reader masks to the requested width, Read consults the bit reader error; the window cursor is constant-initialised or masked; crash-site inventory of NewReader/Read/Close and callees in lzhuf discharged by compiler proofs and the fact engine. The adaptive-tree indices (decodeChar/update/reconst, 22 sites) are listed as ASSUMED (tree-shape invariant), not discharged. Does not decide that the bytes read are the canonical decoding, tree-index safety, or termination of the tree walk.",
    technique="abstract case enumeration over comparison orderings on the SSA CFG; path search for an unguarded increment; guard dominance; crash-site inventory with compiler BCE proofs and difference-bound facts",
    ref="DESIGN.md section 4, C08"),
+ "C10": dict(
+   text="Decides from source: every append to GetOutbound's result is dominated, for that message, by Header.Del of each mailbox-private key (set computed from the X-... constants the package uses); routing conditions of each append (sole-recipient forwarder match / no forwarders and not P2P-only, with infeasible CFG edges ruled out by the fact engine); deferred MIDs skipped on every branch; non-Defer answers only outside send-only mode, Reject only on the file-exists edge; the deferral set written only by Prepare (fresh map, unconditionally) and SetDeferred; SetSent is exactly one rename out/->sent/; ProcessInbound flags unread before serialising and stores as in/<MID>.b2f. Does not decide equivalence with a reference model over operation histories (listings, counts, restarts).",
+   technique="dominance of header deletions over result appends; guard classification on SSA with integer-feasibility of edges; who-may-write rules on a struct field; file-system effect inventory over the package call graph",
+   ref="DESIGN.md section 4, C10"),
+ "C11": dict(
+   text="Decides from source (atomic rename assumed): every content-writing call in package mailbox targets a path that the same function renames to the final name, the rename being dominated by the success of open, every write and close (phi-aware nil reasoning over the merged error variable); the three public writers store only through such a helper; the temporary name starts with a dot and the loader skips dot files before opening; marking sent is one rename. Covers every crash point of the writers at once because no path publishes partial content. Does not decide fsync durability or directory corruption.",
+   technique="effect-ordering analysis on SSA (write/close success dominates rename), who-may-call rule for raw writers, constant-prefix check of temporary names",
+   ref="DESIGN.md section 4, C11"),
+ "C12": dict(
+   text="Decides from source by interprocedural taint analysis over mailbox and fbb: values controlled by the remote at the handler boundary (Message parameters of ProcessInbound, Proposal parameters of GetInboundAnswer(s), and everything derived: MID(), header values) cannot reach a path operand of any mutating file-system call unless their use is dominated by the pass edge of a confinement check on that very value (predicate refusing '/' - and '\\' in the windows configuration -, filepath.IsLocal, Base). Covers all MID/header strings at once. Does not decide symlinks inside the mailbox or OS-specific name handling; SetSent/SetDeferred identifiers are local and not sources.",
+   technique="interprocedural, call-site-sensitive taint analysis on SSA with guard sanitisers recognised through predicate summaries",
+   ref="DESIGN.md section 4, C12"),
 }
 
 not_applicable = {
